@@ -212,7 +212,7 @@ def stage_wide(chk, focus, tag='w'):
     whose alphabetical order is not their level order (drivers/wide.py)."""
     q = chk.quick
     # TLC evaluates every denotation over all 2^n assignments: n = 12 costs 8 times n = 9
-    return stage_histories(chk, ntraces=32 if q else 192, steps=18 if q else 24,
+    return stage_histories(chk, ntraces=chk.th(32, 192), steps=chk.th(18, 24),
                            nvars_choices=[9, 9, 10, 11] if q else [9, 9, 10, 10, 11],
                            profile='wide_' + focus, tag=tag + focus)
 
